@@ -38,7 +38,7 @@ def run(eng, ctx):
         ctx.check(not p.trys, "C05.D1", asm.qualname, "parse failure propagates out of the assembler", expected="no local handler", found=f"inside try {p.trys}", **eng.loc(asm, p.node))
     if not parses:
         ctx.bad("C05.D1", asm.qualname, "static parser call", expected="one call", found="none", **eng.loc(asm, asm.node))
-    gate = SH.header_gate(eng, ctx, "C01.D1", m)
+    gate = SH.header_gate(eng, ctx, "C01.D1", m, mode="not-stricter")
     SH.read_script(eng, ctx, "C01.D2", gate)
     # ---------------- D2
     SH.crc_gate(eng, ctx, "C01.D4")
